@@ -10,7 +10,10 @@ Unknown or malformed commands print `bad-op` (never a default value).
 open Driver
 
 def handlers : List (String → List String → Option String) :=
-  [handleStrPath, handleTile, handleStream]
+  handleStrPath ::
+  handleTile ::
+  handleStream ::
+  []
 
 def dispatch (line : String) : String :=
   match (line.trimAscii.toString.splitOn " ").filter (· ≠ "") with
